@@ -327,6 +327,60 @@ fn run_family(f: &Family, total: &Mutex<Acc>) {
     });
 }
 
+/// All trees with <= 1 operator (wrappers everywhere), in chunks; each chunk goes through one
+/// interpreter sequentially and is compared with fresh-interpreter evaluation.
+fn session_pass(total: &Mutex<Acc>) -> u64 {
+    let leaves = full_leaves();
+    let mut texts: Vec<String> = vec![];
+    let shp = shapes(1);
+    for op in ALL_BIN {
+        for a in &leaves {
+            for b in &leaves {
+                for c in wrap_configs(3, 1) {
+                    let (mut x, mut y, mut z) = (0, 0, 0);
+                    let e = build(&shp[0], &[op], &[a.clone(), b.clone()], &c, &mut x, &mut y, &mut z);
+                    texts.push(e.render_full());
+                }
+            }
+        }
+    }
+    let n = texts.len() as u64;
+    texts.par_chunks(3000).for_each(|chunk| {
+        let mut s = Sess::new();
+        let mut none = std::iter::empty();
+        let _ = s.run_line("N=2:S$=\"A\"", &mut none, 100);
+        let mut hist = vec![Ev::LineToIdle("N=2:S$=\"A\"".into())];
+        for t in chunk {
+            let line = format!("PRINT {}", t);
+            s.recs.clear();
+            let end = s.run_line(&line, &mut none, 100);
+            hist.push(Ev::LineToIdle(line.clone()));
+            let got = match end {
+                RunEnd::Idle => Outcome::Printed(s.printed()),
+                RunEnd::Error(k, _) => Outcome::Error(k),
+                RunEnd::Panic(p) => Outcome::Panic(p),
+                other => Outcome::Other(format!("{:?}", other)),
+            };
+            let fresh = run_subject(&[t.clone()]).pop().unwrap();
+            if got != fresh {
+                let mut t2 = total.lock().unwrap();
+                t2.violating += 1;
+                if t2.violations.len() < 400 {
+                    // keep the replay short: the last 80 lines of the session
+                    let tail: Vec<Ev> = hist.iter().rev().take(400).rev().cloned().collect();
+                    t2.violations.push(Violation {
+                        signature: format!("expr {} :: in a long session got {:?}, fresh interpreter gives {:?}", t, got, fresh),
+                        detail: format!("after {} earlier PRINT lines in the same interpreter, PRINT {} gave {:?}; a fresh interpreter gives {:?} (replay holds the last lines of the session; the full session is the enumeration order of all one-operator trees)", hist.len() - 1, t, got, fresh),
+                        case: case_history(&tail, false, false),
+                    });
+                }
+                return;
+            }
+        }
+    });
+    n
+}
+
 pub fn run(thorough: bool) -> Report {
     let mut rep = Report::new("C02", "exploration");
     let total = Mutex::new(Acc::default());
@@ -392,6 +446,10 @@ pub fn run(thorough: bool) -> Report {
         fam_desc.push(json!({"binary_operators": f.k, "leaves": f.leaves.len(),
             "wrappers": match f.max_wraps { None => "every node: none|+|-|NOT|ABS|INT".to_string(), Some(m) => format!("at most {} wrapped node(s)", m)}}));
     }
+    // Session pass: the same expressions evaluated one after the other in long-lived
+    // interpreters (non-initial states: hundreds of earlier successes and failures) must
+    // give what a fresh interpreter gives.
+    let session = session_pass(&total);
     let acc = total.into_inner().unwrap();
     if acc.errors.len() < 2 || acc.values.len() < 10 {
         machinery("vacuous: too few distinct outcomes");
@@ -414,6 +472,7 @@ pub fn run(thorough: bool) -> Report {
         "rule": "all expression trees per family (shape x operator tuple x leaf tuple x wrapper configuration), each distinct by construction; non-trivial = at least one binary operator and an outcome the reference defines",
         "exhaustive": true,
         "trees": acc.trees,
+        "session_pass_expressions_in_long_lived_interpreters": session,
         "trees_per_operator_count": acc.per_size,
         "families": fam_desc,
         "reference_defined": acc.defined,
